@@ -563,8 +563,13 @@ Fixpoint run (fuel : nat) (E : env) (c : code) (resolve : bool) (d : nat) : M va
   end.
 
 (** [CelContext::exec]: run the named program of the context. *)
+(** what a caller can see of the log: the calls of its own functions.  The compiler's memory marks are
+    not calls (an empty interpreter, as the macros use for their identifier arguments, has no clock either,
+    so the model leaves a mark there at run time too, where nothing reads it). *)
+Definition visible_log (lg : log) : log := filter (fun e => negb (is_runtime_mark e)) lg.
+
 Definition exec (fuel : nat) (E : env) (name : bytes) : res value * log :=
   match assoc name (e_progs E) with
-  | Some c => run fuel E c true O []
+  | Some c => let '(r, lg) := run fuel E c true O [] in (r, visible_log lg)
   | None => (RErr (EBinding name), [])
   end.
